@@ -29,6 +29,14 @@ type rop struct {
 	run  func(h *gorm.DB)
 }
 
+// rowIDA is a destination with two of the model's columns.
+type rowIDA struct {
+	ID int64
+	A  int64
+}
+
+const smallFind = "h.Find(&[]struct{ID, A})"
+
 // rowOf reads the one row Row() delivers (SELECT *: the columns in table order).
 func rowOf(row *sql.Row) (pred.Row, error) {
 	var r pred.Row
@@ -52,11 +60,21 @@ func rowOf(row *sql.Row) (pred.Row, error) {
 func (k *checker) collect(f func()) []string {
 	saved := k.problems
 	k.problems = nil
-	f()
+	func() {
+		// a panic inside one step is that step's result (the case goes on)
+		defer func() {
+			if p := recover(); p != nil {
+				k.add("%s%v", panicked, p)
+			}
+		}()
+		f()
+	}()
 	out := k.problems
 	k.problems = saved
 	return out
 }
+
+const panicked = "PANIC: "
 
 func (k *checker) reuseOps(cc chain, want, matching []pred.Row) (clean, last []rop) {
 	clean = []rop{
@@ -136,6 +154,27 @@ func (k *checker) reuseOps(cc chain, want, matching []pred.Row) (clean, last []r
 			}
 		}},
 	}
+	// a struct that holds some of the columns only (gorm then selects just these): ids and a are compared
+	clean = append(clean, rop{smallFind, func(h *gorm.DB) {
+		var sm []rowIDA
+		res := h.Find(&sm)
+		if res.Error != nil {
+			k.add("Find(&[]struct{ID, A}) error %v", res.Error)
+			return
+		}
+		got := make([]pred.Row, len(sm))
+		w := make([]pred.Row, len(want))
+		for i, x := range sm {
+			got[i] = pred.Row{ID: x.ID, A: x.A}
+		}
+		for i, x := range want {
+			w[i] = pred.Row{ID: x.ID, A: x.A}
+		}
+		k.cmpRows("Find(&[]struct{ID, A})", got, w)
+		if res.RowsAffected != int64(len(sm)) {
+			k.add("Find(&[]struct{ID, A}) RowsAffected=%d, %d rows returned", res.RowsAffected, len(sm))
+		}
+	}})
 	// Count: only without limit/offset (statement); what the handle Count returns holds after a scope handed back a
 	// new session is not fixed, the count itself is
 	if len(cc.calls) == 0 {
@@ -296,7 +335,26 @@ func (k *checker) reused(want, matching []pred.Row) {
 		msg := fmt.Sprintf("%s; %s: the last step: %s", what, strings.Join(seq, "; "), strings.Join(probs, " | "))
 		// the same step on a handle of its own
 		alone := k.collect(func() { op.run(mk()) })
+		// the same sequence without the reads into the smaller struct
+		var rest []rop
+		for _, o := range ops[:i] {
+			if o.name != smallFind {
+				rest = append(rest, o)
+			}
+		}
+		afterSmall := false
+		if len(rest) < i && len(alone) == 0 {
+			h2 := mk()
+			for _, o := range rest {
+				k.collect(func() { o.run(h2) })
+			}
+			afterSmall = len(k.collect(func() { op.run(h2) })) == 0
+		}
 		switch {
+		case afterSmall:
+			k.afterSmall = append(k.afterSmall, msg+" [the same steps without the Find into the two-column struct agree with the reference]")
+		case i > 0 && len(alone) == 0 && strings.HasPrefix(op.name, "h.Pluck(") && strings.HasPrefix(probs[0], panicked):
+			k.pluckPanics = append(k.pluckPanics, msg+" [Pluck as the first step on a handle built the same way agrees with the reference]")
 		case i > 0 && len(alone) == 0:
 			k.reusedHandle = append(k.reusedHandle, msg+" [the same step as the first one on a handle built the same way agrees with the reference]")
 		case strings.HasPrefix(op.name, "h.Row()"):
